@@ -353,6 +353,21 @@ def systematic(loop):
             ["tblk", {"d": di, "body": [["tblk", {"d": di, "body": [["s", 10]]}], ["s", 10]]}], ["s", 10]]}}
         yield {"loop": loop, "aux": [], "prog": {"d": None, "body": [["tblk", {"d": do, "body": head + [
             ["tblk", {"d": di, "body": [["s", 10]]}], ["s", 10]]}], ["s", 1]]}}
+    # an environment cancel in the same tick as the deadline (before / between / after the timer callback, the
+    # interruptor's step and the target's step), and one tick around it
+    for d in [1, 2]:
+        for tick in [d - 1, d, d + 1]:
+            for nth in range(5):
+                yield {"loop": loop, "aux": [], "prog": {"d": d, "body": [["s", 4], ["s0"]]}, "cancel_at": [[tick, nth]]}
+        for nth in range(4):
+            yield {"loop": loop, "aux": [], "prog": {"d": 3, "body": [["blk", {"d": d, "body": [["s", 4]]}], ["s", 1]]},
+                   "cancel_at": [[d, nth]]}
+    # the block exits just as the deadline passes (completion in the deadline's tick), 1..3 levels
+    for d in [1, 2, 3]:
+        yield {"loop": loop, "aux": [], "prog": {"d": d, "body": [["s", d]]}}
+        yield {"loop": loop, "aux": [], "prog": {"d": d, "body": [["s", d], ["s0"], ["s0"]]}}
+        yield {"loop": loop, "aux": [d], "prog": {"d": d, "body": [["aw", 0]]}}
+        yield {"loop": loop, "aux": [], "prog": {"d": d + 1, "body": [["blk", {"d": d, "body": [["s", d]]}], ["s", 1]]}}
     # cancel storms: 1, 2, 3 consecutive refusals (3 = the interruptor's give-up path)
     for n in [1, 2, 3]:
         for d in [1, 2]:
@@ -372,6 +387,10 @@ def run(ctx):
     explore(ctx, [(c, full(c)) for c in corpus_cases()], "corpus: ")
     batch = [(c, full(c)) for lp in LOOPS for c in systematic(lp)]
     explore(ctx, batch, "systematic: ")
+    # a fixed block of generated cases that does not depend on VERIF_SEED
+    import random as _random
+    frng = _random.Random("C16 fixed block")
+    explore(ctx, [(c, full(c)) for c in (gen_case(frng) for _ in range(300))], "fixed block: ")
     n = 12000 if ctx.thorough() else 1200
     batch = []
     for i in range(n):
